@@ -204,3 +204,43 @@ MUTANTS += [
     dict(name="c10_only_first_target_scored", prop="C10", file=RDG,
          old="            return (loss_1_to_2 + loss_2_to_1) / 2\n\n        if self.regularization_method", new="            return (loss_1_to_2 + loss_2_to_1) / 2 if y.shape[1] < 3 else loss_1_to_2\n\n        if self.regularization_method"),
 ]
+
+PRE = "src/skmatter/preprocessing/_data.py"
+MUTANTS += [
+    # ---------------------------------------------------------------- C11
+    dict(name="c11_unweighted_variance", prop="C11", file=PRE,
+         old="            var = np.average((X - X_mean) ** 2, weights=sample_weight, axis=0)", new="            var = np.average((X - X_mean) ** 2, axis=0)"),
+    dict(name="c11_scale_is_variance", prop="C11", file=PRE,
+         old="                self.scale_ = np.sqrt(var_sum)", new="                self.scale_ = var_sum"),
+    dict(name="c11_tolerance_inverted", prop="C11", file=PRE,
+         old="                if np.any(var < self.atol + abs(X_mean) * self.rtol):", new="                if np.any(var > 1e300 * (self.atol + abs(X_mean) * self.rtol)) or np.all(var < self.atol * 0.5):"),
+    dict(name="c11_inverse_order", prop="C11", file=PRE,
+         old="        return X_tr * self.scale_ + self.mean_", new="        return (X_tr + self.mean_) * self.scale_"),
+    dict(name="c11_variance_about_zero_when_uncentred", prop="C11", file=PRE,
+         old="            X_mean = np.average(X, weights=sample_weight, axis=0)\n            var =", new="            X_mean = np.average(X, weights=sample_weight, axis=0) * (1.0 if self.with_mean else 0.0)\n            var ="),
+    dict(name="c11_weights_not_normalised_for_zero", prop="C11", file=PRE,
+         old="            sample_weight = _check_sample_weight(sample_weight, X, dtype=X.dtype)\n            sample_weight = sample_weight / np.sum(sample_weight)\n\n        if self.with_mean:",
+         new="            sample_weight = _check_sample_weight(sample_weight, X, dtype=X.dtype)\n            sample_weight = np.maximum(sample_weight, 1e-3 * np.max(sample_weight))\n            sample_weight = sample_weight / np.sum(sample_weight)\n\n        if self.with_mean:"),
+    dict(name="c11_rtol_uses_first_column", prop="C11", file=PRE,
+         old="                if var_sum < abs(np.average(X_mean)) * self.rtol + self.atol:", new="                if var_sum < abs(X_mean[0]) * self.rtol + self.atol:"),
+]
+
+MUTANTS += [
+    # ---------------------------------------------------------------- C12
+    dict(name="c12_unweighted_pred_cols", prop="C12", file=PRE,
+         old="        if self.with_center:\n            K_pred_cols = np.average(K, weights=self.sample_weight_, axis=1)[\n                :, np.newaxis\n            ]\n        else:\n            K_pred_cols = np.zeros((K.shape[0], 1))\n\n        K -= self.K_fit_rows_\n        K -= K_pred_cols\n        K += self.K_fit_all_\n\n        return K / self.scale_",
+         new="        if self.with_center:\n            K_pred_cols = np.average(K, axis=1)[\n                :, np.newaxis\n            ]\n        else:\n            K_pred_cols = np.zeros((K.shape[0], 1))\n\n        K -= self.K_fit_rows_\n        K -= K_pred_cols\n        K += self.K_fit_all_\n\n        return K / self.scale_"),
+    dict(name="c12_scale_from_uncentred_trace", prop=["C12", "C05"], file=PRE,
+         old="            K += self.K_fit_all_\n\n            self.scale_ = np.trace(K) / K.shape[0]",
+         new="            K += self.K_fit_all_ + self.K_fit_rows_ + K_pred_cols - 2 * self.K_fit_all_\n\n            self.scale_ = np.trace(K) / K.shape[0]"),
+    dict(name="c12_sparse_scale_no_sqrt", prop="C12", file=PRE,
+         old="            self.scale_ = np.sqrt(np.trace(Khat) / Knm.shape[0])", new="            self.scale_ = np.trace(Khat) / Knm.shape[0]"),
+    dict(name="c12_sparse_unweighted_rows", prop="C12", file=PRE,
+         old="            self.K_fit_rows_ = np.average(Knm, weights=sample_weight, axis=0)\n        else:\n            self.K_fit_rows_ = np.zeros(Knm.shape[1])", new="            self.K_fit_rows_ = np.average(Knm, axis=0)\n        else:\n            self.K_fit_rows_ = np.zeros(Knm.shape[1])"),
+    dict(name="c12_fit_all_unweighted", prop="C12", file=PRE,
+         old="                self.K_fit_all_ = np.average(\n                    self.K_fit_rows_, weights=self.sample_weight_\n                )", new="                self.K_fit_all_ = np.average(\n                    self.K_fit_rows_\n                )"),
+    dict(name="c12_trace_off_still_scales", prop="C12", file=PRE,
+         old="        else:\n            self.scale_ = 1.0\n\n        return self\n\n    def transform(self, K, copy=True):", new="        else:\n            self.scale_ = 1.0 if self.with_center else np.trace(K) / K.shape[0]\n\n        return self\n\n    def transform(self, K, copy=True):"),
+    dict(name="c12_sparse_test_recentred", prop="C12", file=PRE,
+         old="        Kc = (Knm - self.K_fit_rows_) / self.scale_", new="        Kc = (Knm - (self.K_fit_rows_ if Knm.shape[0] != 1 else Knm.mean(axis=0))) / self.scale_"),
+]
